@@ -309,8 +309,9 @@ def run(prog: Program, ctx: Ctx) -> None:  # noqa: PLR0912,PLR0915
     ef.compute([m for _k, m in getters])
     ctx.expect_min("R2", len(getters), 3)
     TABLED_GETTERS = {
-        "relative_package_filepath": "defensive raise: the loader derives every module's file from its package's own directories, so one of the "
-                                     "package directories is always a prefix (no failing input exists for trees loaded from disk)",
+        "relative_package_filepath": "defensive raise: the loader derives a module's file from its package's own directories, so one of the package "
+                                     "directories is a prefix - except for a stub-only sub-module merged in from a stubs package that lives in another "
+                                     "search path (row below, an open finding)",
     }
     # the tabled claim is backed by a table: the getter evaluated on the layouts the loader produces
     from pathlib import PurePosixPath as _PP
@@ -326,6 +327,7 @@ def run(prog: Program, ctx: Ctx) -> None:  # noqa: PLR0912,PLR0915
         "namespace sub-package present in both portions": ([_PP("/p1/nsp"), _PP("/p2/nsp")], [_PP("/p1/nsp/plugins"), _PP("/p2/nsp/plugins")], "nsp/plugins"),
         "namespace sub-package present in the second portion only": ([_PP("/p1/nsp"), _PP("/p2/nsp")], [_PP("/p2/nsp/plugins/ext")], "nsp/plugins/ext"),
         "namespace sub-package present in the first portion only": ([_PP("/p1/nsp"), _PP("/p2/nsp")], [_PP("/p1/nsp/plugins")], "nsp/plugins"),
+        "stub-only sub-module merged from a stubs package in another search path": (_PP("/a/spkg/__init__.py"), _PP("/b/spkg-stubs/extra.pyi"), "<any path, no exception>"),
     }
     for label, (pkg_path, own_path, want) in layouts.items():
         package = _Obj(mcls, {"name": "top", "_filepath": pkg_path, "parent": None}, label="package")
@@ -335,7 +337,8 @@ def run(prog: Program, ctx: Ctx) -> None:  # noqa: PLR0912,PLR0915
             got = str(itg.getattr(me, "relative_package_filepath"))
         except _Raised as r:
             got = f"raises {r.exc}"
-        ctx.ob("R2", f"relative_package_filepath|{label}", got == want, f"{label}: relative_package_filepath = {got}; expected {want}", where(rpf))
+        ctx.ob("R2", f"relative_package_filepath|{label}", got == want or (want.startswith("<any") and not got.startswith("raises")),
+               f"{label}: relative_package_filepath = {got}; expected {want}", where(rpf))
     # an alias is written from its own fields: nothing in Alias.as_dict may follow the alias (a resolved first link says nothing about the rest of the
     # chain - aliases created by wildcard expansion are linked to members that may themselves be unresolvable imports)
     for ad_ in prog.lookup_method(prog.cls(f"{M}.Alias"), "as_dict"):
